@@ -153,12 +153,51 @@ pub fn c06(tier: Tier, seed: u64) -> Verdict {
     if merged.violation.is_none() {
         merged.merge(super::histories::run_large_texts("C06"));
     }
+    if merged.violation.is_none() {
+        // "... after a failure": the same size operations with ordinary sizes, each allocator request of the
+        // history failing in turn; also on a target shortened first (short text in a roomy buffer)
+        let mut list: Vec<History> = Vec::new();
+        for h in grid.iter().filter(|h| h.ops.iter().all(|o| !matches!(o, Op::PushStr { text: Text::Repeat { .. }, .. } | Op::InsertStr { text: Text::Repeat { .. }, .. }))) {
+            let n_prefix = h.ops.len() - 4;
+            let size = match &h.ops[n_prefix] {
+                Op::WithCapacity { n: Size::Abs(n), .. } | Op::Reserve { n: Size::Abs(n), .. } | Op::ShrinkTo { n: Size::Abs(n), .. } => *n,
+                Op::Extend { it, .. } | Op::Collect { it, .. } => it.hint.unwrap_or(0),
+                _ => continue,
+            };
+            if size > 5000 {
+                continue;
+            }
+            list.push(h.clone());
+            let mut ops = h.ops.clone();
+            ops.insert(n_prefix, Op::Truncate { slot: 0, n: Idx::Boundary(26000), try_: false });
+            list.push(History { ops, plan: Plan::default() });
+        }
+        let case = super::enumerators::fault_case("C06", false);
+        let m = run_parallel(|shard| {
+            let mut m = Merged::new();
+            let mut cur = CurrentFile::open("C06", shard);
+            let mut i = shard;
+            while i < list.len() {
+                let (st, v) = case(&list[i], &mut cur);
+                m.absorb(st);
+                if let Some(v) = v {
+                    m.violation = Some(v);
+                    break;
+                }
+                i += SHARDS;
+            }
+            cur.clear();
+            *m.counters.entry("fault_grid_histories".into()).or_insert(0) += (list.len() / SHARDS) as u64;
+            m
+        });
+        merged.merge(m);
+    }
     finish(
         "C06",
         tier,
         seed,
         "exploration",
-        "exhaustive grid: sizes {0,1,2} U {2^k+d} U {2^56+-d, isize::MAX+-d, usize::MAX-d} U {each minus a current length} x 9 entry points (try_with_capacity, with_capacity, try_reserve, reserve, try_shrink_to, shrink_to, Extend<char>, Extend<&char>, collect with size_hint().0 = n) x 9 target states, then the same size operations at random points of proptest histories; the shim refuses requests above 1 MiB deterministically; non-trivial = size >= 2^20 on a non-inline target (or as hint / capacity); distinct history digests",
+        "exhaustive grid: sizes {0,1,2} U {2^k+d} U {2^56+-d, isize::MAX+-d, usize::MAX-d} U {each minus a current length} x 9 entry points (try_with_capacity, with_capacity, try_reserve, reserve, try_shrink_to, shrink_to, Extend<char>, Extend<&char>, collect with size_hint().0 = n) x 9 target states, then the same size operations at random points of proptest histories; the shim refuses requests above 1 MiB deterministically; the grid cases with sizes up to 5000 (also on a target truncated first) are re-run with each allocator request failing in turn; non-trivial = size >= 2^20 on a non-inline target (or as hint / capacity); distinct history digests",
         ASSUME_HIST,
         &merged,
         t0.elapsed().as_secs_f64(),
@@ -525,6 +564,47 @@ pub fn c12(tier: Tier, seed: u64) -> Verdict {
     if merged.violation.is_none() {
         // growth of texts of several MiB
         merged.merge(super::histories::run_large_texts("C12"));
+    }
+    if merged.violation.is_none() {
+        // iterator-driven appends whose item count says nothing about their size: k empty items around a few bytes
+        let mut list: Vec<History> = Vec::new();
+        for state in 0..N_STATES {
+            let (prefix, _) = state_prefix(state);
+            for k in [1usize, 2, 3, 9, 30, 100, 1000] {
+                for kind in [IterKind::Str, IterKind::String, IterKind::BoxStr, IterKind::CowB, IterKind::CowO, IterKind::Lean, IterKind::Char] {
+                    for (fill, collect) in [("", false), ("f", false), ("é€", false), ("f", true)] {
+                        let mut items = vec![String::new(); k];
+                        if !fill.is_empty() {
+                            items.insert(k / 2, fill.to_string());
+                        }
+                        let it = IterSpec { kind, items, slots: vec![], hint: None, panic_at: None, loose: None, fx: None };
+                        let mut ops = prefix.clone();
+                        ops.push(if collect { Op::Collect { slot: 3, it } } else { Op::Extend { slot: 0, it } });
+                        ops.push(Op::Compare { a: 0, b: 1 });
+                        ops.push(Op::Push { slot: 0, ch: 'z', try_: false });
+                        list.push(History { ops, plan: Plan::default() });
+                    }
+                }
+            }
+        }
+        let case = growth_case();
+        let m = run_parallel(|shard| {
+            let mut m = Merged::new();
+            let mut cur = CurrentFile::open("C12", shard);
+            let mut i = shard;
+            while i < list.len() {
+                let (st, v) = case(&list[i], &mut cur);
+                m.absorb(st);
+                if let Some(v) = v {
+                    m.violation = Some(v);
+                    break;
+                }
+                i += SHARDS;
+            }
+            cur.clear();
+            m
+        });
+        merged.merge(m);
     }
     if merged.violation.is_none() {
         // push loops
